@@ -6,7 +6,7 @@
 (* rewrite.rs make_edit).                                                  *)
 (*  An edit is [pos, del, ins] with ins a sequence of bytes (or characters).*)
 (***************************************************************************)
-EXTENDS Naturals, Sequences, SequencesExt, FiniteSets
+EXTENDS Naturals, Sequences, SequencesExt, FiniteSets, TLC
 
 EditEnd(e) == e.pos + e.del
 
@@ -39,4 +39,15 @@ RewriteFrom(old, es, k, start, offset) ==
          IF start > pos THEN RewriteFrom(old, es, k + 1, start, offset)
          ELSE SubSeq(old, start + 1, pos) \o es[k].ins \o RewriteFrom(old, es, k + 1, pos + es[k].del, offset)
 RewriteSplice(old, es, offset) == RewriteFrom(old, es, 1, 0, offset)
+\* ---- P for --update-all (C18) ------------------------------------------------
+\* P: every file = its original text with the announced edits of ALL its documents applied, an edit being
+\* dropped iff its range intersects an earlier accepted one; files without accepted edits are untouched
+Intersects(a, b) == a.pos < EditEnd(b) /\ b.pos < EditEnd(a)
+RECURSIVE AcceptAll(_, _, _)
+AcceptAll(es, k, acc) ==
+    IF k > Len(es) THEN acc
+    ELSE IF \E j \in 1..Len(acc) : Intersects(es[k], acc[j]) THEN AcceptAll(es, k + 1, acc)
+    ELSE AcceptAll(es, k + 1, Append(acc, es[k]))
+SortByPos(es) == SortSeq(es, LAMBDA a, b : a.pos < b.pos)
+FinalP(original, announced) == Splice(original, SortByPos(AcceptAll(announced, 1, <<>>)))
 =============================================================================
